@@ -347,7 +347,8 @@ for _p in ('C14', 'C19'):
 # exact comparison of REAL values (fix 07c7cc8): normal form computed by Real.__factors, __eq__ compares normal forms
 UR = 'contracts.univ_real'
 for _p in ('C01', 'C03', 'C04'):
-    PROPS[_p]['contracts'] = PROPS[_p]['contracts'] + [(UR, 'type.univ::Real.__factors'), (UR, 'type.univ::Real.__eq__[real-vs-real]')]
+    PROPS[_p]['contracts'] = PROPS[_p]['contracts'] + [(UR, 'type.univ::Real.__factors'), (UR, 'type.univ::Real.__eq__[real-vs-real]'),
+                                                     (UR, 'type.univ::Real.__normalizeBase10[integral-mantissa]')]
 # the drop-proof position (fix 0928f1d)
 for _p in ('C11', 'C05', 'C07'):
     PROPS[_p]['contracts'] = PROPS[_p]['contracts'] + [(ST, 'codec.streaming::CachingStreamWrapper.droppedOctets.getter'),
